@@ -3,18 +3,29 @@ use automerge::transaction::Transactable;
 use automerge::*;
 
 fn main() {
-    let mut a = AutoCommit::new().with_actor(ActorId::from(vec![1u8]));
-    a.put(ROOT, "a", 1).unwrap();
-    a.commit();
-    let mut b = a.fork().with_actor(ActorId::from(vec![2u8]));
-    a.put(ROOT, "x", 1).unwrap();
-    a.commit();
-    b.put(ROOT, "y", 1).unwrap();
-    b.commit();
-    a.merge(&mut b).unwrap();
-    let bytes = a.save_nocompress();
-    let l = amv::mutate::doc_layout(&bytes).unwrap();
-    println!("heads {} suffix_start {} chunk end {} len {}", l.heads_count, l.suffix_start, l.chunk.end, bytes.len());
-    println!("suffix bytes {:?}", &bytes[l.suffix_start..l.chunk.end]);
-    println!("drop_head -> {:?}", amv::mutate::drop_head(&bytes).map(|b| AutoCommit::load(&b).map(|mut d| d.get_heads().len()).map_err(|e| e.to_string())));
+    std::panic::set_hook(Box::new(|_| {}));
+    let bytes = std::fs::read(std::env::args().nth(1).unwrap()).unwrap();
+    let mut d = AutoCommit::load(&bytes).unwrap();
+    let (t, _) = d.import("1@8001aaaaaaaaaaaaaaaaaaaaaaaaaaaa").unwrap();
+    println!("text={:?} len={}", d.text(&t).unwrap(), d.length(&t));
+    println!("marks={:?}", d.marks(&t).unwrap());
+    println!("spans={:?}", d.spans(&t).unwrap().collect::<Vec<_>>());
+    for i in 0..=d.length(&t) + 1 {
+        let mut c = d.clone();
+        let r = std::panic::catch_unwind(std::panic::AssertUnwindSafe(|| c.splice_text(&t, i, 0, "X").map(|_| ())));
+        let after = c.text(&t).unwrap();
+        let mut c2 = d.clone();
+        let r2 = std::panic::catch_unwind(std::panic::AssertUnwindSafe(|| c2.replace_block(&t, i).map(|_| ())));
+        println!("i={i}: splice_text {:?} -> {after:?} marks {:?}; replace_block {:?}", r.map_err(|_| "PANIC"), c.marks(&t).unwrap().iter().map(|m| (m.start, m.end)).collect::<Vec<_>>(), r2.map_err(|_| "PANIC"));
+    }
+    let mut c = d.clone();
+    c.join_block(&t, 3).unwrap();
+    println!("after join_block(3): text={:?} len={} spans={:?}", c.text(&t).unwrap(), c.length(&t), c.spans(&t).unwrap().collect::<Vec<_>>());
+    let mut r = AutoCommit::load(&c.save()).unwrap();
+    println!("reloaded:            text={:?} len={}", r.text(&t).unwrap(), r.length(&t));
+    for i in 0..=c.length(&t) {
+        let mut c2 = c.clone();
+        let r = std::panic::catch_unwind(std::panic::AssertUnwindSafe(|| c2.splice_text(&t, i, 0, "X").map(|_| ())));
+        println!("  i={i}: {:?} -> {:?}", r.map_err(|_| "PANIC"), c2.text(&t).unwrap());
+    }
 }
